@@ -47,6 +47,18 @@ CHECKS = {
                 note=TRUST + 'ASSUMED, not proved: mul_mod/pow_mod return the exact residue; Baillie-PSW exact on 64 bits; find_prime_factor returns a prime; gcd/is_perfect_square/jacobi '
                              'functional correctness; D.mag < 2^31. Type-level mag<a>()*mag<b>() == mag<a*b>() is N/A.', ref='5 (C12)',
                 tech='CBMC function + loop contracts via goto-instrument --dfcc --enforce-contract --replace-call-with-contract --apply-loop-contracts on un-promoted clang IR'),
+    'C14': dict(text='Quantity * Quantity, / (unblock_int_div), int_pow<2>, int_pow<3>, same-unit quotient collapsing to a raw number equal the raw operator on the stored values '
+                     'whenever the raw expression is defined (overflow predicates of the abstract machine), for all values; sqrt: std::sqrt called once on the stored value (trusted stub).',
+                note=TRUST + 'result unit as a type, integer-division guard and as_raw_number rejections are compile-time: not claimed. Floating * and / bit-exactness only in the thorough tier.',
+                ref='5 (C14)', tech=H),
+    'C15': dict(text='floor_/ceil_/round_in and _as: integral result bracketing the library\'s own conversion of q (scaling step under its purity contract), all finite values below 2^51 / 2^22; '
+                     'inverse_in/as == trunc(10^6/x) for all x != 0 and inverse(inverse(n)) == n for 1..1000; sin/cos/tan/arcsin wrappers call the std function exactly once on the value '
+                     'in radians (trusted stubs); min/max/clamp/abs in the common unit.',
+                note=TRUST + 'libm functions are assumed; compile-time refusal of small-K inversions not claimed; the float->int inverse obligation is an exhaustive small family (bounded, not counted).',
+                ref='5 (C15)', tech=H + '; callee purity contracts; libm as trusted stubs'),
+    'C16': dict(text='Multiplying/dividing numbers and quantities by a constant keeps the stored number bit for bit for every value; C.as<T>/in<T>/implicit conversion return the independently '
+                     'computed exact value; can_store_value_in on boundary instances.', note=TRUST + '"available exactly when representable" only on its positive instances and listed boundaries.',
+                ref='5 (C16)', tech=H),
     'C17': dict(text='as_quantity(d) has d\'s count in seconds*Period, Quantity -> duration -> count is the identity, as_chrono_duration keeps value and Period, for every bit pattern; mixed '
                      'duration/quantity comparisons, sums and differences equal the result of the lowered std::chrono operator and the exact order, whenever chrono\'s own products fit.',
                 note=TRUST + "libstdc++'s <chrono> is lowered by the same pipeline. Acceptance 'exactly when the quantity would be' is compile-time: not claimed.", ref='5 (C17)', tech=H),
